@@ -1126,6 +1126,7 @@ def peg_stream(printed, muts, rng, quick):
          'tatsu_parsers_disagree': 0, 'peg_out_of_fuel': 0}
     by_stream = {}
     hand_diff = []
+    outside = []
     for (stream, text), (ri, rf), (hand, peg) in zip(cases, both, model):
         by_stream[stream] = by_stream.get(stream, 0) + 1
         if ri != rf or ri[0] == 'odd':
@@ -1137,6 +1138,7 @@ def peg_stream(printed, muts, rng, quick):
         if peg != want:
             h['peg_vs_tatsu_disagree'] += 1
             if text in CORPUS_OUTSIDE_MODEL:
+                outside.append(text)
                 continue
             small = text
 
@@ -1166,7 +1168,7 @@ def peg_stream(printed, muts, rng, quick):
         else:
             h['four_agree_reject'] += 1
     cov = {'peg_texts': len(texts), 'peg_by_stream': by_stream, 'peg_histogram': h,
-           'peg_hand_vs_peg_samples': hand_diff[:8],
+           'peg_hand_vs_peg_samples': hand_diff[:8], 'peg_disagree_on_corpus_outside_model': outside,
            'peg_rule': 'same printed / corpus / mutated texts as the other streams (sampled: quick '
                        f'{n_p} printed + whole corpus + {n_m} mutated); 4 parsers: shipped parser.py, tatsu.compile(bql.ebnf), '
                        'hand-written Model/Parser.v, Model/Peg.v interpreting Gen/Grammar.v by vm_compute; '
